@@ -3,6 +3,7 @@ package sim
 import (
 	"context"
 	"sync"
+	"time"
 
 	"berty.tech/go-orbit-db/events"
 	"berty.tech/go-orbit-db/iface"
@@ -136,6 +137,9 @@ func (s *topicSub) Publish(ctx context.Context, message []byte) error {
 }
 
 func (s *topicSub) Peers(ctx context.Context) ([]peer.ID, error) {
+	if d := s.w.PeersDelay; d != nil {
+		time.Sleep(d())
+	}
 	return s.w.topicPeers(s), nil
 }
 
